@@ -5,3 +5,4 @@ PROPERTY CancelStable AllReturn
 CHECK_DEADLOCK FALSE
 CONSTANTS
   Record = FALSE
+  ExitOnAcceptNone = FALSE
